@@ -180,7 +180,7 @@ def _parse_eq_to_batch_matmul(eq, shape_a, shape_b):
         4. Unfuse the output to get the desired final index order.
 
     """
-    lhs, out = eq.split("->")
+    lhs, out = _sanitize_equation(eq)
     a_term, b_term = lhs.split(",")
 
     if len(a_term) != len(shape_a):
